@@ -1,11 +1,13 @@
 package p9
 
-// vhloop driver: runs one scripted scenario (phases of "send these frames" /
-// "release this gate") against the real Server.Handle and records, per phase, the
-// reply frames that arrived.  A small bookkeeping twin tells the driver how many
-// replies / backend entries to wait for in a phase (so that waiting is event
-// based); the JUDGE is the Coq side (Loop/Cases.v), which recomputes the
-// prediction with the model and evaluates the property on the observation.
+// vhloop driver: runs one scripted scenario (phases of "send these frames on
+// connection c" / "release this gate" / "peer of c stops reading" / "peer of c
+// hangs up") against the real Server.Handle (one Server, one gated backend, one
+// or two connections) and records, per phase, the reply frames that arrived.  A
+// small bookkeeping twin tells the driver how many replies / backend entries to
+// wait for in a phase (so that waiting is event based); the JUDGE is the Coq side
+// (Loop/Cases.v), which recomputes the prediction with the model and evaluates
+// the property on the observation.
 
 import (
 	"encoding/json"
@@ -13,27 +15,32 @@ import (
 	"math/rand"
 	"os"
 	"sort"
+	"time"
 )
 
 type vhloopFrame struct {
-	K    string `json:"k"` // read | clunk | flush | badtype | short | rmsg
-	Tag  int    `json:"tag"`
-	Gate int    `json:"gate"` // read/clunk: gate id, -1 = not gated
-	Mode int    `json:"mode"` // not gated: 0 ok, 1 backend error, 2 backend panic
-	Old  int    `json:"old"`  // flush
-	Fid  int    `json:"fid"`
+	K       string `json:"k"` // read | clunk | attach | getattr | setattr | clone | flush | badtype | short | rmsg
+	Tag     int    `json:"tag"`
+	Gate    int    `json:"gate"`    // the gate whose release lets this request finish, -1 = none
+	NoEnter bool   `json:"noenter"` // the gate is not its own backend call: it waits (lock order) for the request that is in it
+	Mode    int    `json:"mode"`    // not gated: 0 ok, 1 backend error, 2 backend panic
+	Old     int    `json:"old"`     // flush
+	Fid     int    `json:"fid"`
+	NewFid  int    `json:"newfid"` // clone
 }
 
 type vhloopStep struct {
-	Op     string        `json:"op"` // send | release
+	Op     string        `json:"op"` // send | release | break | hangup
+	Conn   int           `json:"conn"`
 	Frames []vhloopFrame `json:"frames,omitempty"`
-	Gate   int           `json:"gate"`
+	Gate   int           `json:"gate"` // release: the gate; hangup: gate of a Close the server's stop() will block in (0 none)
 	Mode   int           `json:"mode"`
 }
 
 type vhloopScn struct {
 	Name  string       `json:"name"`
 	Frag  bool         `json:"frag"`
+	NConn int          `json:"nconn"`
 	NFid  int          `json:"nfid"`
 	Steps []vhloopStep `json:"steps"`
 }
@@ -52,9 +59,9 @@ type vhloopObs struct {
 	Setup    bool          `json:"setup"` // handshake (Tversion, Tattach, Tlopen per fid) answered as expected
 	Phases   []vhloopPhase `json:"phases"`
 	Trailing []vhloopReply `json:"trailing"`
-	Left     int           `json:"left"`
+	Left     int           `json:"left"` // bytes of an incomplete frame at the end of a stream we did not cut ourselves
 	Bad      bool          `json:"bad"`
-	Returned bool          `json:"returned"`
+	Returned bool          `json:"returned"` // every Server.Handle returned after its peer closed
 	Hung     bool          `json:"hung"`
 }
 
@@ -68,6 +75,14 @@ func vhloopBytes(f vhloopFrame) []byte {
 		return vhloopEnc(uint16(f.Tag), &tread{fid: fid(f.Fid), Offset: off, Count: vhloopReadCount})
 	case "clunk":
 		return vhloopEnc(uint16(f.Tag), &tclunk{fid: fid(f.Fid)})
+	case "attach":
+		return vhloopEnc(uint16(f.Tag), &tattach{fid: fid(f.Fid), Auth: tauth{Authenticationfid: noFID, UserName: "u", AttachName: "", UID: NoUID}})
+	case "getattr":
+		return vhloopEnc(uint16(f.Tag), &tgetattr{fid: fid(f.Fid), AttrMask: AttrMaskAll})
+	case "setattr":
+		return vhloopEnc(uint16(f.Tag), &tsetattr{fid: fid(f.Fid)})
+	case "clone":
+		return vhloopEnc(uint16(f.Tag), &twalkgetattr{fid: fid(f.Fid), newFID: fid(f.NewFid)})
 	case "flush":
 		return vhloopEnc(uint16(f.Tag), &tflush{OldTag: tag(f.Old)})
 	case "badtype": // unknown message type: recv returns the frame's tag with an error
@@ -80,58 +95,80 @@ func vhloopBytes(f vhloopFrame) []byte {
 	panic("vhloop: frame kind " + f.K)
 }
 
+func vhloopIsOp(k string) bool {
+	switch k {
+	case "read", "clunk", "attach", "getattr", "setattr", "clone":
+		return true
+	}
+	return false
+}
+
 // ---------------------------------------------------------------------------
 // the twin
 
 type vhloopEntry struct {
-	tag, gate, rtyp int
+	conn, tag, gate int
 	flush           bool
 	waits           *vhloopEntry
 	done            bool
 }
 
 type vhloopTwin struct {
-	holder  map[int]*vhloopEntry // tag -> request surely in flight
-	unsure  []*vhloopEntry       // accepted in this phase, will finish within it
+	holder  map[[2]int]*vhloopEntry // (conn, tag) -> request surely in flight
+	unsure  []*vhloopEntry          // accepted in this phase, will finish within it
 	pending []*vhloopEntry
+	dead    map[int]bool // connections whose peer stopped reading: no reply can arrive
+}
+
+func vhloopNewTwin() *vhloopTwin {
+	return &vhloopTwin{holder: map[[2]int]*vhloopEntry{}, dead: map[int]bool{}}
 }
 
 type vhloopWant struct {
-	replies map[[2]int]int // (tag, 0 = any of {rtyp, Rlerror}) -> count ; we only count per tag
+	replies map[[2]int]int // (conn, tag) -> count
 	enters  []int
 }
 
-func (t *vhloopTwin) send(f vhloopFrame, w *vhloopWant) {
+func (w *vhloopWant) reply(t *vhloopTwin, c, tg int) {
+	if !t.dead[c] {
+		w.replies[[2]int{c, tg}]++
+	}
+}
+
+func (t *vhloopTwin) send(c int, f vhloopFrame, w *vhloopWant) {
 	switch f.K {
 	case "badtype":
-		w.replies[[2]int{f.Tag, 0}]++
+		w.reply(t, c, f.Tag)
 		return
 	case "short":
-		w.replies[[2]int{int(noTag), 0}]++
+		w.reply(t, c, int(noTag))
 		return
 	}
-	if h := t.holder[f.Tag]; h != nil {
+	k := [2]int{c, f.Tag}
+	if h := t.holder[k]; h != nil {
 		return // tag in flight: dropped without a reply
 	}
-	e := &vhloopEntry{tag: f.Tag, gate: -1}
-	t.holder[f.Tag] = e
-	switch f.K {
-	case "read", "clunk":
+	e := &vhloopEntry{conn: c, tag: f.Tag, gate: -1}
+	t.holder[k] = e
+	switch {
+	case vhloopIsOp(f.K):
 		if f.Gate >= 0 {
 			e.gate = f.Gate
 			t.pending = append(t.pending, e)
-			w.enters = append(w.enters, f.Gate)
+			if !f.NoEnter {
+				w.enters = append(w.enters, f.Gate)
+			}
 			return
 		}
-	case "flush":
+	case f.K == "flush":
 		e.flush = true
-		if h := t.holder[f.Old]; h != nil && f.Old != f.Tag && t.isPending(h) {
+		if h := t.holder[[2]int{c, f.Old}]; h != nil && f.Old != f.Tag && t.isPending(h) {
 			e.waits = h
 			t.pending = append(t.pending, e)
 			return
 		}
 	}
-	w.replies[[2]int{f.Tag, 0}]++
+	w.reply(t, c, f.Tag)
 	t.unsure = append(t.unsure, e)
 }
 
@@ -148,9 +185,10 @@ func (t *vhloopTwin) release(g int, w *vhloopWant) {
 	var fin func(e *vhloopEntry)
 	fin = func(e *vhloopEntry) {
 		e.done = true
-		w.replies[[2]int{e.tag, 0}]++
-		if t.holder[e.tag] == e {
-			delete(t.holder, e.tag)
+		w.reply(t, e.conn, e.tag)
+		k := [2]int{e.conn, e.tag}
+		if t.holder[k] == e {
+			delete(t.holder, k)
 		}
 		var rest []*vhloopEntry
 		for _, p := range t.pending {
@@ -174,41 +212,46 @@ func (t *vhloopTwin) release(g int, w *vhloopWant) {
 
 func (t *vhloopTwin) endPhase() {
 	for _, e := range t.unsure {
-		if t.holder[e.tag] == e {
-			delete(t.holder, e.tag)
+		k := [2]int{e.conn, e.tag}
+		if t.holder[k] == e {
+			delete(t.holder, k)
 		}
 	}
 	t.unsure = nil
 }
-
-// ---------------------------------------------------------------------------
 
 // vhloopBarriers makes a script race free with respect to dropped frames: nothing tells the peer that
 // the server has finished StartTag for a frame it drops, so every send step containing such a frame
 // ends with an ungated read on a fresh tag; its reply shows that the receive lock has moved on (a
 // frame is received only after the previous receiver has done StartTag and unlocked recvMu).
 func vhloopBarriers(scn vhloopScn) vhloopScn {
-	tw := &vhloopTwin{holder: map[int]*vhloopEntry{}}
+	tw := vhloopNewTwin()
 	n := 0
 	for si, st := range scn.Steps {
 		w := &vhloopWant{replies: map[[2]int]int{}}
-		if st.Op == "release" {
+		switch st.Op {
+		case "release":
 			tw.release(st.Gate, w)
 			tw.endPhase()
+			continue
+		case "break":
+			tw.dead[st.Conn] = true
+			continue
+		case "hangup":
 			continue
 		}
 		dropped, lastUngated := false, false
 		for _, f := range st.Frames {
-			isDrop := f.K != "badtype" && f.K != "short" && tw.holder[f.Tag] != nil
+			isDrop := f.K != "badtype" && f.K != "short" && tw.holder[[2]int{st.Conn, f.Tag}] != nil
 			before := len(tw.unsure)
-			tw.send(f, w)
+			tw.send(st.Conn, f, w)
 			dropped = dropped || isDrop
 			lastUngated = len(tw.unsure) > before || f.K == "badtype" || f.K == "short"
 		}
-		if dropped && !lastUngated {
+		if dropped && !lastUngated && !tw.dead[st.Conn] {
 			b := vhloopRead(60000+n, -1)
 			n++
-			tw.send(b, w)
+			tw.send(st.Conn, b, w)
 			scn.Steps[si].Frames = append(append([]vhloopFrame{}, st.Frames...), b)
 		}
 		tw.endPhase()
@@ -216,30 +259,42 @@ func vhloopBarriers(scn vhloopScn) vhloopScn {
 	return scn
 }
 
+// ---------------------------------------------------------------------------
+
 func vhloopRun(prop string, scn vhloopScn) vhloopObs {
+	if scn.NConn < 1 {
+		scn.NConn = 1
+	}
 	o := vhloopObs{Kind: "scn", Prop: prop, Scn: scn, Phases: []vhloopPhase{}, Trailing: []vhloopReply{}}
-	v := vhloopDial(scn.Frag)
-	// handshake
+	bk := vhloopNewBackend()
+	srv := NewServer(bk)
+	frames := make(chan vhloopReply, 8192)
+	var conns []*vhloopConn
 	o.Setup = true
-	hs := [][]byte{vhloopEnc(uint16(noTag), &tversion{MSize: 8192, Version: "9P2000.L"})}
-	want := []msgType{msgRversion}
-	for k := 0; k < scn.NFid; k++ {
-		hs = append(hs, vhloopEnc(1, &tattach{fid: fid(k), Auth: tauth{Authenticationfid: noFID, UserName: "u", AttachName: "", UID: NoUID}}))
-		hs = append(hs, vhloopEnc(1, &tlopen{fid: fid(k), Flags: ReadOnly}))
-		want = append(want, msgRattach, msgRlopen)
-	}
-	for i, b := range hs {
-		if err := v.write(b); err != nil {
-			o.Setup = false
-			break
+	for c := 0; c < scn.NConn && o.Setup; c++ {
+		v := vhloopDial(srv, bk, c, scn.Frag, frames)
+		conns = append(conns, v)
+		// handshake
+		hs := [][]byte{vhloopEnc(uint16(noTag), &tversion{MSize: 8192, Version: "9P2000.L"})}
+		want := []msgType{msgRversion}
+		for k := 0; k < scn.NFid; k++ {
+			hs = append(hs, vhloopBytes(vhloopFrame{K: "attach", Tag: 1, Fid: k}))
+			hs = append(hs, vhloopEnc(2, &tlopen{fid: fid(k), Flags: ReadOnly}))
+			want = append(want, msgRattach, msgRlopen)
 		}
-		r, ok := v.next()
-		if !ok || msgType(r.Typ) != want[i] {
-			o.Setup = false
-			break
+		for i, b := range hs {
+			if err := v.write(b); err != nil {
+				o.Setup = false
+				break
+			}
+			r, ok := vhloopNext(frames)
+			if !ok || msgType(r.Typ) != want[i] || r.Conn != c {
+				o.Setup = false
+				break
+			}
 		}
 	}
-	tw := &vhloopTwin{holder: map[int]*vhloopEntry{}}
+	tw := vhloopNewTwin()
 	for _, st := range scn.Steps {
 		if !o.Setup || o.Hung {
 			break
@@ -248,29 +303,28 @@ func vhloopRun(prop string, scn vhloopScn) vhloopObs {
 		w := &vhloopWant{replies: map[[2]int]int{}}
 		switch st.Op {
 		case "send":
+			v := conns[st.Conn]
 			for _, f := range st.Frames {
-				if (f.K == "read" || f.K == "clunk") && f.Gate >= 0 {
-					v.bk.shut(f.Gate)
+				if vhloopIsOp(f.K) && f.Gate >= 0 && !f.NoEnter {
+					bk.shut(f.Gate)
 				}
 				if f.K == "read" && f.Gate < 0 && f.Mode != 0 {
 					g := int(uint64(1<<40) + uint64(f.Mode))
-					v.bk.shut(g)
-					v.bk.release(g, f.Mode)
+					bk.shut(g)
+					bk.release(g, f.Mode)
 				}
-				if f.K == "flush" {
-					// which backend call must be over before this flush is answered: the one of the
-					// request in flight with tag Old (if it is a gated backend request)
-					if tw.holder[f.Tag] == nil {
-						g := -1
-						if h := tw.holder[f.Old]; h != nil && f.Old != f.Tag {
-							g = h.gate
-						}
-						v.mu.Lock()
-						v.targets[f.Tag] = g
-						v.mu.Unlock()
+				if f.K == "flush" && tw.holder[[2]int{st.Conn, f.Tag}] == nil {
+					// which backend call must be over before this flush is answered: the one made on behalf
+					// of the request in flight with tag Old (if it is in a gated backend call of its own)
+					g := -1
+					if h := tw.holder[[2]int{st.Conn, f.Old}]; h != nil && f.Old != f.Tag {
+						g = h.gate
 					}
+					v.mu.Lock()
+					v.targets[f.Tag] = g
+					v.mu.Unlock()
 				}
-				tw.send(f, w)
+				tw.send(st.Conn, f, w)
 				if err := v.write(vhloopBytes(f)); err != nil {
 					ph.Stall = true
 					break
@@ -278,21 +332,30 @@ func vhloopRun(prop string, scn vhloopScn) vhloopObs {
 			}
 		case "release":
 			tw.release(st.Gate, w)
-			v.bk.release(st.Gate, st.Mode)
+			bk.release(st.Gate, st.Mode)
+		case "break":
+			tw.dead[st.Conn] = true
+			conns[st.Conn].stopReading()
+		case "hangup":
+			if st.Gate > 0 {
+				bk.shut(st.Gate)
+				w.enters = append(w.enters, st.Gate)
+			}
+			conns[st.Conn].hangup()
 		}
 		need := 0
 		for _, n := range w.replies {
 			need += n
 		}
 		for need > 0 && !ph.Stall {
-			r, ok := v.next()
+			r, ok := vhloopNext(frames)
 			if !ok {
 				ph.Missing = need
 				o.Hung = true
 				break
 			}
 			ph.Replies = append(ph.Replies, r)
-			k := [2]int{r.Tag, 0}
+			k := [2]int{r.Conn, r.Tag}
 			if w.replies[k] > 0 {
 				w.replies[k]--
 				need--
@@ -300,14 +363,14 @@ func vhloopRun(prop string, scn vhloopScn) vhloopObs {
 		}
 		if !o.Hung && !ph.Stall {
 			for _, g := range w.enters {
-				if !v.waitEnter(g) {
+				if !bk.waitEnter(g) {
 					ph.NoEnter = append(ph.NoEnter, g)
 					o.Hung = true
 				}
 			}
 		}
 		for {
-			r, ok := v.poll()
+			r, ok := vhloopPoll(frames)
 			if !ok {
 				break
 			}
@@ -319,26 +382,106 @@ func vhloopRun(prop string, scn vhloopScn) vhloopObs {
 		tw.endPhase()
 		o.Phases = append(o.Phases, ph)
 	}
-	o.Returned, o.Trailing, o.Left, o.Bad = v.finish()
-	if o.Trailing == nil {
-		o.Trailing = []vhloopReply{}
+	// teardown: nothing blocks any more, every peer closes, every Handle must return
+	bk.openAll()
+	o.Returned = true
+	for _, v := range conns {
+		v.q.Close()
+	}
+	for _, v := range conns {
+		if !v.waitDone() {
+			o.Returned = false
+		}
+	}
+	for _, v := range conns {
+		select {
+		case <-v.rdone:
+		case <-time.After(2 * time.Second):
+			v.r.Close()
+		}
+		v.mu.Lock()
+		if !v.broken {
+			o.Left += v.left
+		}
+		o.Bad = o.Bad || v.bad
+		v.mu.Unlock()
+	}
+	for {
+		r, ok := vhloopPoll(frames)
+		if !ok {
+			break
+		}
+		o.Trailing = append(o.Trailing, r)
 	}
 	return o
+}
+
+// vhloopRunB runs a generated scenario after making it race free (replays are run as recorded).
+func vhloopRunB(prop string, scn vhloopScn) vhloopObs { return vhloopRun(prop, vhloopBarriers(scn)) }
+
+// vhloopEmit writes an observation through to the file at once (a later hang must not lose it) and
+// counts the scenarios in which the server got stuck: each costs seconds of watchdog time, and three
+// are evidence enough, so the tests stop generating after that.
+var vhloopStuck int
+
+func vhloopEmit(out *vhOut, o vhloopObs) bool {
+	out.Emit(o)
+	out.mu.Lock()
+	out.w.Flush()
+	out.mu.Unlock()
+	if o.Hung || !o.Returned || !o.Setup {
+		vhloopStuck++
+	}
+	return vhloopStuck < 3
 }
 
 // ---------------------------------------------------------------------------
 // scenario construction helpers
 
 func vhloopSend(fs ...vhloopFrame) vhloopStep { return vhloopStep{Op: "send", Frames: fs} }
-func vhloopRel(g, mode int) vhloopStep        { return vhloopStep{Op: "release", Gate: g, Mode: mode} }
-func vhloopRead(tag, gate int) vhloopFrame    { return vhloopFrame{K: "read", Tag: tag, Gate: gate} }
-func vhloopFlush(tag, old int) vhloopFrame    { return vhloopFrame{K: "flush", Tag: tag, Old: old} }
-func vhloopClunk(tag, fid int, gated bool) vhloopFrame {
+func vhloopSendC(c int, fs ...vhloopFrame) vhloopStep {
+	return vhloopStep{Op: "send", Conn: c, Frames: fs}
+}
+func vhloopRel(g, mode int) vhloopStep     { return vhloopStep{Op: "release", Gate: g, Mode: mode} }
+func vhloopRead(tag, gate int) vhloopFrame { return vhloopFrame{K: "read", Tag: tag, Gate: gate} }
+func vhloopReadF(tag, fid, gate int) vhloopFrame {
+	return vhloopFrame{K: "read", Tag: tag, Gate: gate, Fid: fid}
+}
+func vhloopFlush(tag, old int) vhloopFrame { return vhloopFrame{K: "flush", Tag: tag, Old: old} }
+
+// vhloopClunk: Tclunk of a fid whose File is `file`; gated = the backend's Close blocks.
+func vhloopClunk(tag, fid int, gated bool) vhloopFrame { return vhloopClunkF(tag, fid, fid, gated) }
+func vhloopClunkF(tag, fid, file int, gated bool) vhloopFrame {
 	g := -1
 	if gated {
-		g = vhloopCloseBase + fid
+		g = vhloopCloseBase + file
 	}
 	return vhloopFrame{K: "clunk", Tag: tag, Gate: g, Fid: fid}
+}
+
+// vhloopAttachOver: Tattach onto a fid that is in use; the replaced File (`file`) is closed, gated or not.
+func vhloopAttachOver(tag, fid, file int, gated bool) vhloopFrame {
+	g := -1
+	if gated {
+		g = vhloopCloseBase + file
+	}
+	return vhloopFrame{K: "attach", Tag: tag, Gate: g, Fid: fid}
+}
+
+// vhloopOnFile: Tgetattr / Tsetattr / zero-name Twalkgetattr on a fid whose File is `file`, gated in that backend method or not.
+func vhloopOnFile(k string, tag, fid, file int, gated bool) vhloopFrame {
+	g := -1
+	if gated {
+		g = map[string]int{"getattr": vhloopGetAttrBase, "setattr": vhloopSetAttrBase, "clone": vhloopWalkBase}[k] + file
+	}
+	return vhloopFrame{K: k, Tag: tag, Gate: g, Fid: fid, NewFid: 500 + tag}
+}
+
+// vhloopBehind: a request that the lock order puts after the request sitting in gate g.
+func vhloopBehind(f vhloopFrame, g int) vhloopFrame {
+	f.Gate = g
+	f.NoEnter = true
+	return f
 }
 
 func vhloopPerms(n int) [][]int {
@@ -367,34 +510,35 @@ func vhloopRandomFlush(r *rand.Rand, name string) vhloopScn {
 }
 
 func vhloopRandomW(r *rand.Rand, name string, nact, maxInFlight int, frag, flushHeavy bool) vhloopScn {
-	scn := vhloopScn{Name: name, Frag: frag, NFid: 6}
-	tw := &vhloopTwin{holder: map[int]*vhloopEntry{}}
+	scn := vhloopScn{Name: name, Frag: frag, NConn: 1, NFid: 6}
+	tw := vhloopNewTwin()
 	nextGate := 1
 	nextTag := 1
 	nextClunk := 1
 	var answered []int
 	var closed []int // gates shut and not yet released
+	boundary := []int{0, 65534, 65535}
 	pickFree := func() int {
 		for {
 			var t int
 			switch {
 			case len(answered) > 0 && r.Intn(3) == 0:
 				t = answered[r.Intn(len(answered))] // immediate re-use of an answered tag
-			case r.Intn(40) == 0:
-				t = []int{0, 65534, 65535}[r.Intn(3)]
+			case r.Intn(12) == 0:
+				t = boundary[r.Intn(3)]
 			default:
 				t = nextTag
 				nextTag++
 			}
-			if tw.holder[t] == nil {
+			if tw.holder[[2]int{0, t}] == nil {
 				return t
 			}
 		}
 	}
 	inFlightTags := func() []int {
 		var l []int
-		for t := range tw.holder {
-			l = append(l, t)
+		for k := range tw.holder {
+			l = append(l, k[1])
 		}
 		sort.Ints(l)
 		return l
@@ -467,14 +611,14 @@ func vhloopRandomW(r *rand.Rand, name string, nact, maxInFlight int, frag, flush
 		}
 		if st.Op == "send" {
 			for _, f := range st.Frames {
-				tw.send(f, w)
+				tw.send(0, f, w)
 			}
 		} else {
 			tw.release(st.Gate, w)
 		}
 		for k := range w.replies {
-			if k[0] != int(noTag) {
-				answered = append(answered, k[0])
+			if k[1] != int(noTag) {
+				answered = append(answered, k[1])
 			}
 		}
 		tw.endPhase()
@@ -488,10 +632,21 @@ func vhloopRandomW(r *rand.Rand, name string, nact, maxInFlight int, frag, flush
 
 // vhloopBatch: n gated reads in flight at once (tags adversarial), then released in the given order.
 func vhloopBatch(name string, n int, order []int, frag bool, together bool) vhloopScn {
-	scn := vhloopScn{Name: name, Frag: frag, NFid: 1}
+	scn := vhloopScn{Name: name, Frag: frag, NConn: 1, NFid: 1}
+	tagOf := func(i int) int {
+		switch i {
+		case 0:
+			return 65535
+		case 1:
+			return 0
+		case 2:
+			return 65534
+		}
+		return 40000 + i
+	}
 	var fs []vhloopFrame
 	for i := 0; i < n; i++ {
-		fs = append(fs, vhloopRead(40000+i, i+1))
+		fs = append(fs, vhloopRead(tagOf(i), i+1))
 	}
 	if together {
 		scn.Steps = append(scn.Steps, vhloopSend(fs...))
@@ -503,7 +658,7 @@ func vhloopBatch(name string, n int, order []int, frag bool, together bool) vhlo
 	for _, i := range order {
 		scn.Steps = append(scn.Steps, vhloopRel(i+1, 0))
 		// immediate re-use of the tag just answered, not gated
-		scn.Steps = append(scn.Steps, vhloopSend(vhloopRead(40000+i, -1)))
+		scn.Steps = append(scn.Steps, vhloopSend(vhloopRead(tagOf(i), -1)))
 	}
 	return scn
 }
@@ -525,23 +680,4 @@ func vhloopLoadReplay(p string) (vhloopScn, bool) {
 		return vhloopScn{}, false
 	}
 	return x.Replay.Scn, true
-}
-
-// vhloopRunB runs a generated scenario after making it race free (replays are run as recorded).
-func vhloopRunB(prop string, scn vhloopScn) vhloopObs { return vhloopRun(prop, vhloopBarriers(scn)) }
-
-// vhloopEmit writes an observation through to the file at once (a later hang must not lose it) and
-// counts the scenarios in which the server got stuck: each costs seconds of watchdog time, and three
-// are evidence enough, so the tests stop generating after that.
-var vhloopStuck int
-
-func vhloopEmit(out *vhOut, o vhloopObs) bool {
-	out.Emit(o)
-	out.mu.Lock()
-	out.w.Flush()
-	out.mu.Unlock()
-	if o.Hung || !o.Returned || !o.Setup {
-		vhloopStuck++
-	}
-	return vhloopStuck < 3
 }
